@@ -144,6 +144,9 @@ FD18 == {
   << "month.xunExact", "Lunar.GetMonthXunExact", << "Lunar.GetMonthInGanZhiExact" >> >>, << "month.xunKongExact", "Lunar.GetMonthXunKongExact", << "Lunar.GetMonthInGanZhiExact" >> >>,
   << "day.xun", "Lunar.GetDayXun", << "Lunar.GetDayInGanZhi" >> >>, << "day.xunKong", "Lunar.GetDayXunKong", << "Lunar.GetDayInGanZhi" >> >>,
   << "day.xunExact", "Lunar.GetDayXunExact", << "Lunar.GetDayInGanZhiExact" >> >>, << "day.xunKongExact2", "Lunar.GetDayXunKongExact2", << "Lunar.GetDayInGanZhiExact2" >> >>,
+  << "day.xunKongExact", "Lunar.GetDayXunKongExact", << "Lunar.GetDayInGanZhiExact" >> >>, << "day.xunExact2", "Lunar.GetDayXunExact2", << "Lunar.GetDayInGanZhiExact2" >> >>,
+  << "year.xunExact", "Lunar.GetYearXunExact", << "Lunar.GetYearInGanZhiExact" >> >>,
+  << "year.xunKongByLiChun", "Lunar.GetYearXunKongByLiChun", << "Lunar.GetYearInGanZhiByLiChun" >> >>,
   << "time.xun", "Lunar.GetTimeXun", << "Lunar.GetTimeInGanZhi" >> >>, << "time.xunKong", "Lunar.GetTimeXunKong", << "Lunar.GetTimeInGanZhi" >> >>,
   << "day.positionTai", "Lunar.GetDayPositionTai", << "Lunar.GetDayInGanZhi" >> >>,
   \* by month branch and day branch
